@@ -490,7 +490,11 @@ def mbStep (obj : Nat → AnchorObj) (minSize baseCount : Nat) (st : MbAcc) (i :
   let delta := 4 * info.marks.length + 2 * baseCount + sub
   let accumulated := st.accumulated + delta
   if accumulated + partialCov > 65535 then
-    { partialCov := 4 + 2 * info.marks.length, accumulated := minSize + delta, visited := [],
+    -- since /repo b7790d4: `visited.clear()`, then the class's children are counted again (anchors it
+    -- shares with the previous subtable are new in the next one); the set keeps them
+    let (sub', visited') := computeSubgraphSize obj info.children []
+    { partialCov := 4 + 2 * info.marks.length,
+      accumulated := minSize + (4 * info.marks.length + 2 * baseCount + sub'), visited := visited',
       points := i :: st.points }
   else { partialCov := partialCov, accumulated := accumulated, visited := visited, points := st.points }
 
